@@ -86,7 +86,7 @@ def main():
         proof = {'obligations': 0, 'discharged': 0, 'ok': True,
                  'checker_cmd': 'skipped (--no-coq)', 'axioms': []}
     else:
-        proof = vlib.check_props(pid)
+        proof = vlib.check_props(pid, getattr(mod, 'COQ_DEPS', None))
         if not proof['ok']:
             ctx.broken.append('theorems of Props/%s.v no longer check: %s' % (
                 pid, (proof['forbidden'] or [proof['log'][-1500:]])[0]))
